@@ -1,4 +1,4 @@
 (* Extraction of the FITS model (C06/C07/C08). ExtrOcamlBasic only; N, Z, positive, nat stay extracted inductives. *)
 From Coq Require Import ExtrOcamlBasic.
 From PS Require Import Generated_fits FitsModel FitsWf.
-Extraction "fitsmodel.ml" to_doc of_doc encode decode decode_prefix to_bytes of_bytes read_bytes t_ndim wf_table wf_doc wf_table' reserved aux_key_ok.
+Extraction "fitsmodel.ml" to_doc of_doc encode decode decode_prefix to_bytes of_bytes read_bytes t_ndim wf_table wf_doc wf_table' reserved aux_key_ok write_key_offer aux_entry_ok aux_reloaded aux_value.
